@@ -54,6 +54,7 @@ INT_MINIMA = {-(2 ** 7), -(2 ** 15), -(2 ** 31), -(2 ** 63)}
 KEY_F10A = "C17/floordiv-int-truncates"
 KEY_F10B = "C17/floordiv-float-rounding"
 KEY_F21 = "C17/outside-block-unary-notimplemented"
+KEY_NEGU = "C17/neg-unsigned-unsupported"
 
 
 def lo(t):
@@ -859,6 +860,11 @@ def evaluate(run: Run, impl: Impl, cases, rt_body, prop_every, hist, name="c17")
     return recs, triples, bad, stats
 
 
+def numeric_operands(case):
+    """All operand element types are integer or floating (the property's quantifier; bool is excluded)."""
+    return all(q is None or q[0] in ("int", "float") or q[1] in NUMERIC for q in (case["x"], case["y"]))
+
+
 def oracle_errors(run: Run, impl: Impl, case, rec):
     """Property statements about errors, decided on the implementation's outcome alone."""
     d, x, y = case["d"], case["x"], case["y"]
@@ -872,6 +878,14 @@ def oracle_errors(run: Run, impl: Impl, case, rec):
             return
         run.fail("impl", f"C17/outside-block/{case['op']}/no-typeerror", "operator outside an operator_overloading block does not raise TypeError",
                  {"expression": describe(case), "case": case, "implementation": rec["outcome"] + " " + str(rec.get("err", rec.get("other", "")))})
+        return
+    if case["op"] == "neg" and rec["outcome"] != "ok" and x[1] in NUMERIC:
+        if x[1] in UINT and rec["outcome"] == "err" and rec["err"] == "EInference":
+            run.fail("impl", KEY_NEGU, "unary - on a Var of an unsigned integer type raises (ONNX Neg is not defined for unsigned types); numpy wraps modulo 2^w",
+                     {"expression": describe(case), "case": case, "implementation": "onnx InferenceError", "numpy": "-x modulo 2^w (e.g. -uint8(1) = 255)"})
+        else:
+            run.fail("impl", f"C17/neg/{x[1]}/error-where-numpy-computes", "unary - raises although numpy computes a result",
+                     {"expression": describe(case), "case": case, "implementation": rec["outcome"] + " " + str(rec.get("err", rec.get("other", "")))})
         return
     if case["op"] not in ARITH:
         return
@@ -895,14 +909,27 @@ def oracle_errors(run: Run, impl: Impl, case, rec):
             if rec["operand_cast"]:
                 run.fail("impl", f"C17/no-promotion/{case['op']}/operand-cast", "type promotion off: an operand is converted (Cast emitted)",
                          {"expression": describe(case), "case": case, "tree": rec["tree"]})
+        # a result must exist where the property promises one: equal numeric element types, or a Python scalar that
+        # fits (int with any numeric Var, float with a floating Var), constant promotion on for scalars
+        if rec["outcome"] != "ok" and numeric_operands(case):
+            var = x if x[0] == "var" else y
+            oth = y if x[0] == "var" else x
+            promised = (oth[0] == "var" and oth[1] == var[1]) or (d[1] and (
+                (oth[0] == "int" and (var[1] in FLT or lo(var[1]) <= oth[1] <= hi(var[1]))) or (oth[0] == "float" and var[1] in FLT)))
+            if promised:
+                run.fail("impl", f"C17/no-promotion/{case['op']}/unexpected-error", "type promotion off: error although the operands have one element type",
+                         {"expression": describe(case), "case": case, "implementation": rec["outcome"] + " " + str(rec.get("err", rec.get("other", "")))})
     else:
         exp = numpy_expected(impl, case, rec)
-        if rec["outcome"] == "err" and rec["err"] == "EOverflow":
-            if exp[0] == "err" and exp[1] == "EOverflow":
-                rec["numpy_error_agrees"] = True
-                return
-            run.fail("impl", f"C17/{case['op']}/overflowerror-where-numpy-computes", "OverflowError although numpy computes a result",
-                     {"expression": describe(case), "case": case})
+        if rec["outcome"] == "err" and rec["err"] == "EOverflow" and exp[0] == "err" and exp[1] == "EOverflow":
+            rec["numpy_error_agrees"] = True
+            return
+        if rec["outcome"] != "ok" and exp[0] == "value" and numeric_operands(case) and (d[1] or (x[0] == "var" and y[0] == "var")):
+            tys = "-".join(q[1] if q[0] in ("var", "np") else q[0] for q in (x, y) if q is not None)
+            run.fail("impl", f"C17/{case['op']}/{tys}/error-where-numpy-computes",
+                     "type promotion on: the operator raises although numpy computes a result for these operands",
+                     {"expression": describe(case), "case": case, "implementation": rec["outcome"] + " " + str(rec.get("err", rec.get("other", ""))),
+                      "numpy": {"dtype": str(impl.np.asarray(exp[1]).dtype)}})
 
 
 def oracle_values(run: Run, impl: Impl, case, rec, got, qdiv, what):
